@@ -401,7 +401,8 @@ class C07(Prop):
                 'def opaqueStr : List (Nat × Bool) :=\n  [' +
                 ', '.join('(%d, %s)' % (i, 'true' if b else 'false') for i, b in opq) + ']\n'
                 'end TTV.Generated.C07\n')
-        return {'TTV/Generated/C07.lean': text}
+        from harness import pymatch2lean
+        return {'TTV/Generated/C07.lean': text, 'TTV/Generated/MatchSrc.lean': pymatch2lean.generate(repo)}
 
     # ----- describe
     def result(self, f, typ):
